@@ -261,7 +261,9 @@ func TestC02_Tampering(t *testing.T) {
 			stillJSON = true
 		}
 		st.Case(stillJSON, typ+"|"+class+"|"+string(bad), "type-"+typ, "tamper-"+class, "signer-"+c.Build.SignKey.Type.String())
-		st.Sample(typ+"/"+class, 1, func() interface{} { return map[string]interface{}{"type": typ, "tamper": class, "request": clip(string(bad), 1500)} })
+		st.Sample(typ+"/"+class, 1, func() interface{} {
+			return map[string]interface{}{"type": typ, "tamper": class, "request": clip(string(bad), 1500)}
+		})
 	})
 }
 
